@@ -1,10 +1,14 @@
 package props
 
 import (
+	"bytes"
+	"context"
 	"errors"
 	"fmt"
+	"hash/fnv"
 	"io"
 	"net/http"
+	"net/url"
 	"strconv"
 	"strings"
 
@@ -137,20 +141,151 @@ func c17ErrName(err error) string {
 	return "other"
 }
 
-func c17Term(f string) error {
+// c17Vary is the deterministic source of the choices Exec makes among EQUIVALENT ways of presenting
+// the same scenario to the real code (spelling of the method, implementation behind the io.ReadCloser,
+// how the request value was made, which buffer a Read gets, ...): a hash of the whole input line, read
+// as a mixed-radix number. None of these choices may change what the unchanged code does — the model
+// does not know them — but each is a dimension of the property's quantifier ("any underlying reader",
+// "any sequence of calls") a changed implementation could key on.
+type c17Vary struct{ v uint64 }
+
+func c17NewVary(in []string) *c17Vary {
+	h := fnv.New64a()
+	h.Write([]byte(strings.Join(in, " ")))
+	// finalise (splitmix) so that the low digits are well mixed
+	z := h.Sum64() + 0x9E3779B97F4A7C15
+	z = (z ^ (z >> 30)) * 0xBF58476D1CE4E5B9
+	z = (z ^ (z >> 27)) * 0x94D049BB133111EB
+	return &c17Vary{v: z ^ (z >> 31)}
+}
+
+// pick returns a digit in [0,n) and re-mixes, so that any number of digits can be drawn.
+func (c *c17Vary) pick(n int) int {
+	c.v += 0x9E3779B97F4A7C15
+	z := c.v
+	z = (z ^ (z >> 30)) * 0xBF58476D1CE4E5B9
+	z = (z ^ (z >> 27)) * 0x94D049BB133111EB
+	z ^= z >> 31
+	return int(z % uint64(n))
+}
+
+// Terminal errors: e<n> is a c17Err value; for n = 8 it additionally answers errors.Is(_, io.EOF) and
+// errors.Is(_, io.ErrUnexpectedEOF) (a source failing with an error that WRAPS an end-of-file
+// condition is still failing with its own error), for n = 9 it looks like a net.Error that is a
+// timeout and temporary, and some others travel wrapped by fmt.Errorf("%w"). The library hands the
+// stream's error through as it is; c17ErrName finds the c17Err inside with errors.As.
+type c17EOFish struct{ c17Err }
+
+func (e c17EOFish) Unwrap() error { return e.c17Err }
+func (e c17EOFish) Is(target error) bool {
+	return target == io.EOF || target == io.ErrUnexpectedEOF
+}
+
+type c17Timeout struct{ c17Err }
+
+func (e c17Timeout) Unwrap() error   { return e.c17Err }
+func (e c17Timeout) Timeout() bool   { return true }
+func (e c17Timeout) Temporary() bool { return true }
+
+func c17Term(f string, wrapped bool) error {
 	if f == "eof" {
 		return io.EOF
 	}
 	if strings.HasPrefix(f, "e") {
-		return c17Err(proto.UnN(f[1:]))
+		n := proto.UnN(f[1:])
+		switch {
+		case n == 8:
+			return c17EOFish{c17Err(n)}
+		case n == 9:
+			return c17Timeout{c17Err(n)}
+		case wrapped:
+			return fmt.Errorf("reading the body: %w", c17Err(n))
+		}
+		return c17Err(n)
 	}
 	panic("C17: bad terminal " + f)
+}
+
+// Other implementations of io.ReadCloser over the same scripted stream: a pointer type that also has
+// Len() (what bytes.Reader, bytes.Buffer, strings.Reader have and net/http looks for), and a struct
+// VALUE made of an io.Reader and an io.Closer (comparable, so `direct` below can still be observed).
+type c17SrcLen struct{ *c17Src }
+
+func (s *c17SrcLen) Len() int { return len(s.data) }
+
+type c17Pair struct {
+	io.Reader
+	io.Closer
+}
+
+type c17OnlyReader struct{ s *c17Src }
+
+func (o c17OnlyReader) Read(p []byte) (int, error) { return o.s.Read(p) }
+
+type c17OnlyCloser struct{ s *c17Src }
+
+func (o c17OnlyCloser) Close() error { return o.s.Close() }
+
+// c17Sink is a plain io.Writer (no ReadFrom), so that io.Copy reads its source with Read.
+type c17Sink struct{ b []byte }
+
+func (w *c17Sink) Write(p []byte) (int, error) { w.b = append(w.b, p...); return len(p), nil }
+
+var errC17Cap = errors.New("scripted: call budget used up")
+
+type c17Counted struct {
+	r    io.Reader
+	left int
+}
+
+func (c *c17Counted) Read(p []byte) (int, error) {
+	if c.left == 0 {
+		return 0, errC17Cap
+	}
+	c.left--
+	return c.r.Read(p)
+}
+
+type c17CountedWT struct {
+	io.Reader
+	io.WriterTo
+}
+
+type c17CtxKey struct{}
+
+var c17Methods = []string{http.MethodPost, http.MethodGet, http.MethodPut, http.MethodHead, "get", http.MethodDelete,
+	http.MethodPatch, "head", "", http.MethodOptions, http.MethodTrace, "Post", http.MethodConnect, "hEAD", "PROPFIND"}
+
+// c17Buf: the buffer a Read of k bytes gets. Equivalent for an io.Reader: a nil slice or an empty
+// non-nil one for k = 0; for k > 0 a fresh slice, one with spare capacity behind it, or a window into
+// the middle of a larger array.
+func c17Buf(vary *c17Vary, k int) []byte {
+	if k == 0 {
+		if vary.pick(2) == 0 {
+			return nil
+		}
+		return make([]byte, 0, 8)
+	}
+	switch vary.pick(3) {
+	case 0:
+		return make([]byte, k)
+	case 1:
+		b := make([]byte, k, k+17)
+		return b
+	default:
+		big := make([]byte, k+24)
+		for i := range big {
+			big[i] = 0xAA
+		}
+		return big[7 : 7+k]
+	}
 }
 
 func c17Exec(in []string) []string {
 	if in[0] != "H" || len(in) != 10 {
 		panic("C17: unknown stream " + in[0])
 	}
+	vary := c17NewVary(in)
 	data := []byte(proto.UnB(in[2]))
 	var sched []int
 	if in[5] != "." {
@@ -158,35 +293,155 @@ func c17Exec(in []string) []string {
 			sched = append(sched, proto.UnN(x))
 		}
 	}
-	src := &c17Src{data: data, term: c17Term(in[3]), together: in[4] == "1", sched: sched}
-	if n := proto.UnN(in[6]); n != 0 {
-		src.cerr = c17Err(n)
+	wrapped := vary.pick(3) == 0
+	newSrc := func(xor byte) *c17Src {
+		d := make([]byte, len(data))
+		for i := range d {
+			d[i] = data[i] ^ xor
+		}
+		s := &c17Src{data: d, term: c17Term(in[3], wrapped), together: in[4] == "1", sched: append([]int(nil), sched...)}
+		if n := proto.UnN(in[6]); n != 0 {
+			s.cerr = c17Err(n)
+		}
+		return s
 	}
+	src := newSrc(0)
 	limit := len(data) + len(sched) + 2
-	// the answer does not depend on the method (a GET may carry a body): vary it
-	method := []string{http.MethodPost, http.MethodGet, http.MethodPut, http.MethodHead, "get", http.MethodDelete, http.MethodPatch}[(len(data)+len(sched))%7]
-	req := &http.Request{Method: method, Header: http.Header{}, ContentLength: int64(proto.UnN(in[7]))}
-	if in[8] != "~" {
-		req.Header["Content-Length"] = []string{proto.UnB(in[8])}
-	} else if req.ContentLength < 0 && (len(data)+len(sched))%2 == 0 {
-		// what net/http hands a server for a chunked request: no length, the transfer coding named
-		req.TransferEncoding = []string{"chunked"}
-	}
-	var orig io.ReadCloser
-	switch in[1] {
-	case "nil":
-	case "nobody":
-		orig = http.NoBody
-	case "src":
-		orig = src
-	default:
+	// the answer does not depend on the method (a GET may carry a body), nor on its spelling: vary it
+	method := c17Methods[vary.pick(len(c17Methods))]
+	cl := int64(proto.UnN(in[7]))
+	// body: which implementation stands behind the io.ReadCloser
+	implSrc, implNoBody := vary.pick(3), vary.pick(4)
+	body := func(s *c17Src) io.ReadCloser {
+		switch in[1] {
+		case "nil":
+			return nil
+		case "nobody":
+			switch implNoBody {
+			case 1:
+				return io.NopCloser(strings.NewReader(""))
+			case 2:
+				return io.NopCloser(bytes.NewReader(nil))
+			}
+			return http.NoBody
+		case "src":
+			switch implSrc {
+			case 1:
+				return &c17SrcLen{s}
+			case 2:
+				return c17Pair{c17OnlyReader{s}, c17OnlyCloser{s}}
+			}
+			return s
+		}
 		panic("C17: bad kind " + in[1])
 	}
-	req.Body = orig
+	// request: a literal with only the fields HasBody may look at, or one that carries everything a
+	// request built by net/http carries (URL, protocol, host, context, GetBody, other header fields)
+	hdrForm, teForm, full, getBody := vary.pick(4), vary.pick(8), vary.pick(2) == 0, vary.pick(3) == 0
+	mkReq := func(s *c17Src) (*http.Request, io.ReadCloser) {
+		req := &http.Request{Method: method, Header: http.Header{}, ContentLength: cl}
+		if in[8] != "~" {
+			req.Header["Content-Length"] = []string{proto.UnB(in[8])}
+			if hdrForm == 1 {
+				// Header.Get reads the first line only
+				req.Header["Content-Length"] = append(req.Header["Content-Length"], "0", "17")
+			}
+		} else {
+			switch hdrForm {
+			case 1:
+				req.Header = nil // reading a nil map is fine: no header
+			case 2:
+				req.Header["Content-Length"] = []string{} // a key without lines: no header
+			}
+			if cl < 0 && teForm < 4 {
+				// what net/http hands a server for a chunked request: no length, the transfer coding named
+				req.TransferEncoding = []string{"chunked"}
+				if teForm == 0 {
+					req.TransferEncoding = []string{"gzip", "chunked"}
+				}
+			} else if cl == 0 && teForm == 0 {
+				// an outgoing request whose caller asked for chunking
+				req.TransferEncoding = []string{"chunked"}
+			} else if teForm == 7 {
+				req.TransferEncoding = []string{"identity"}
+			}
+		}
+		b := body(s)
+		req.Body = b
+		if full {
+			req.URL = &url.URL{Scheme: "http", Host: "example.test", Path: "/pets"}
+			req.Host, req.Proto, req.ProtoMajor, req.ProtoMinor = "example.test", "HTTP/1.1", 1, 1
+			req.RequestURI = "/pets"
+			if req.Header != nil {
+				req.Header["Content-Type"] = []string{"application/json"}
+				req.Header["Expect"] = []string{"100-continue"}
+				req.Header["Accept"] = []string{"*/*"}
+			}
+			req = req.WithContext(context.WithValue(context.Background(), c17CtxKey{}, 1))
+		}
+		if getBody && b != nil {
+			// as http.NewRequest sets it for replayable bodies: a second, independent copy of the stream
+			req.GetBody = func() (io.ReadCloser, error) { return body(newSrc(0)), nil }
+		}
+		return req, b
+	}
+
+	// Nothing HasBody or the body it installs does may depend on other requests: one case in two runs a
+	// warm-up request before, and a twin request (same script, other bytes) op for op alongside the
+	// observed one. Only the observed request is reported.
+	var twin *http.Request
+	twinFirst := false
+	if vary.pick(2) == 0 {
+		// the warm-up request is empty when the observed one is not, and the other way round
+		ws := newSrc(0x33)
+		if len(data) == 0 {
+			ws.data = []byte("warm-up")
+		} else {
+			ws.data = nil
+		}
+		w, _ := mkReq(ws)
+		runtime.HasBody(w)
+		if w.Body != nil {
+			w.Body.Read(make([]byte, 3))
+			w.Body.Close()
+		}
+		twin, _ = mkReq(newSrc(0x5A))
+		twinFirst = vary.pick(2) == 0
+	}
+	req, orig := mkReq(src)
+	onTwin := func(op string) {
+		switch {
+		case op == "h":
+			runtime.HasBody(twin)
+		case twin.Body == nil:
+		case op == "c":
+			twin.Body.Close()
+		default:
+			k := proto.UnN(op[1:])
+			twin.Body.Read(make([]byte, k))
+		}
+	}
 
 	var out []string
 	if in[9] != "." {
-		for _, op := range strings.Split(in[9], ",") {
+		ops := strings.Split(in[9], ",")
+		// the request value may be copied between two calls (middlewares do: r.WithContext, r.Clone);
+		// the copy holds the same Body
+		copyAt, deep := -1, vary.pick(2) == 0
+		if vary.pick(3) == 0 {
+			copyAt = vary.pick(len(ops))
+		}
+		for i, op := range ops {
+			if i == copyAt {
+				if deep {
+					req = req.Clone(context.WithValue(req.Context(), c17CtxKey{}, 2))
+				} else {
+					req = req.WithContext(context.WithValue(req.Context(), c17CtxKey{}, 2))
+				}
+			}
+			if twin != nil && twinFirst == (i%2 == 0) {
+				onTwin(op)
+			}
 			switch {
 			case op == "h":
 				out = append(out, "h"+proto.Bool(runtime.HasBody(req)))
@@ -197,11 +452,29 @@ func c17Exec(in []string) []string {
 				err := req.Body.Close()
 				out = append(out, "c:"+c17ErrName(err)+":"+proto.Bool(direct))
 			case op[0] == 'r':
-				buf := make([]byte, proto.UnN(op[1:]))
+				buf := c17Buf(vary, proto.UnN(op[1:]))
 				n, err := req.Body.Read(buf)
 				out = append(out, "r:"+proto.B(string(buf[:n]))+":"+c17ErrName(err))
+			case op == "d32768" && vary.pick(2) == 0:
+				// reading until an error with 32 KiB buffers is what io.Copy does (for a source without
+				// WriteTo and a sink without ReadFrom); it reports io.EOF as nil
+				// (the source is handed over behind a counter of Read calls, so that a body that never
+				// fails ends the loop like the one below does; if the body has a WriteTo, so has the counter)
+				sink := &c17Sink{}
+				var from io.Reader = &c17Counted{r: req.Body, left: limit}
+				if wt, ok := req.Body.(io.WriterTo); ok {
+					from = c17CountedWT{from, wt}
+				}
+				_, err := io.Copy(sink, from)
+				res := c17ErrName(err)
+				if err == nil {
+					res = "eof"
+				} else if err == errC17Cap {
+					res = "cap"
+				}
+				out = append(out, "d:"+proto.B(string(sink.b))+":"+res)
 			case op[0] == 'd':
-				buf := make([]byte, proto.UnN(op[1:]))
+				buf := c17Buf(vary, proto.UnN(op[1:]))
 				var got []byte
 				res := "cap"
 				for i := 0; i < limit; i++ {
@@ -215,6 +488,9 @@ func c17Exec(in []string) []string {
 				out = append(out, "d:"+proto.B(string(got))+":"+res)
 			default:
 				panic("C17: bad op " + op)
+			}
+			if twin != nil && twinFirst != (i%2 == 0) {
+				onTwin(op)
 			}
 		}
 	}
@@ -300,7 +576,8 @@ func c17Sched(r *proto.Rng, malformed bool) string {
 	return strings.Join(xs, ",")
 }
 
-var c17Ks = []int{0, 0, 1, 1, 2, 3, 7, 16, 100, 4095, 4096, 4097, 10000}
+// 512 is io.ReadAll's first buffer, 32768 io.Copy's (Exec runs half of the d32768 ops through io.Copy)
+var c17Ks = []int{0, 0, 1, 1, 2, 3, 7, 16, 100, 512, 4095, 4096, 4097, 10000, 32768}
 
 func c17Ops(r *proto.Rng) string {
 	n := 1 + r.Intn(8)
@@ -334,9 +611,25 @@ func c17Ops(r *proto.Rng) string {
 // unless malformed.
 func c17Len(r *proto.Rng, dataLen int, malformed bool) (string, string) {
 	if malformed {
-		cl := r.Pick("0", "-1", "5", "-7")
-		hdr := r.Pick(proto.B("5"), proto.B("abc"), "-", proto.B("0"), proto.B("-1"), "~")
+		cl := r.Pick("0", "-1", "5", "-7", "-2147483648", "4294967296")
+		hdr := r.Pick(proto.B("5"), proto.B("abc"), "-", proto.B("0"), proto.B("-1"), "~", proto.B(" 5"), proto.B("+5"), proto.B("0x5"),
+			proto.B("5, 5"), proto.B(" "), proto.B("99999999999999999999"))
 		return cl, hdr
+	}
+	if r.Chance(1, 16) {
+		// lengths beyond 32 bits, and lengths spelled with leading zeros (still header = field)
+		switch r.Intn(4) {
+		case 0:
+			n := []int{1 << 31, 1 << 32, 1<<32 + 7, 1 << 40, 1<<63 - 1}[r.Intn(5)]
+			return proto.N(n), proto.B(proto.N(n))
+		case 1:
+			n := 1 + r.Intn(99)
+			return proto.N(n), proto.B("00" + proto.N(n))
+		case 2:
+			return "0", proto.B("000")
+		default:
+			return proto.N(1 << 32), "~"
+		}
 	}
 	switch x := r.Intn(100); {
 	case x < 40:
